@@ -253,11 +253,12 @@ Proof.
     destruct (N.eq_dec x r) as [->|Hne]; auto. eapply offr_good; eauto. apply (il_eok _ _ _ L). auto.
   - intros x Hx. destruct (pl_w _ _ _ _ _ P _ Hx) as [Hx'|Hx']; auto.
     apply (il_wok _ _ _ L) in Hx'. assert (X := of_n _ _ _ O). lia.
-  - intros conn q Hq. destruct (HI _ _ Hq) as [Hq0|[Ht|(l' & A1 & A2 & A3)]]; [|left; auto|right; exists r, l'; auto].
+  - intros conn q Hq. destruct (HI _ _ Hq) as [Hq0|[Ht|Hl]]; auto.
     destruct (il_cmpl _ _ _ L _ _ Hq0) as [Ht|(r0 & l0 & Hl0 & Hq1 & Ht0)].
     + left. eapply has_term_mono; eauto.
     + destruct (N.eq_dec r0 r) as [->|Hne].
       * destruct (Hr _ Hl0 Ht0) as [Ht|(l' & Hl' & Ec & Et)]; [left; congruence|].
         right. exists r, l'. split; auto. split; auto. congruence.
       * destruct (PERS _ _ Hl0 Ht0 Hne) as (l' & Hl' & [LT _] & Ec). right. exists r0, l'. split; auto. split; auto. congruence.
+  Show Existentials. Unshelve. Show.
 Qed.
